@@ -128,6 +128,11 @@ def fault_menu(cfg, c, tier):
     for d in c.disks.values():
         for k, sub, to in d.links:
             menu.append(("file", d.name.decode(), sub, "delete"))
+            if k == "s":
+                # a symbolic link re-pointed: to a proper prefix of its recorded target, and to the recorded target plus one character
+                if len(to) > 1:
+                    menu.append(("file", d.name.decode(), sub, "retarget-prefix"))
+                menu.append(("file", d.name.decode(), sub, "retarget-longer"))
         for sub in d.dirs:
             menu.append(("file", d.name.decode(), sub, "rmdir"))
     return menu
@@ -172,7 +177,11 @@ def apply_fault(L, c, spec):
             os.replace(os.path.join(L.p(d).encode(), enc(sub[0])), os.path.join(L.p(d).encode(), enc(sub[1])))
             return
         fp = os.path.join(L.p(d).encode(), sub if isinstance(sub, bytes) else sub.encode(errors="surrogateescape"))
-        if how == "delete":
+        if how in ("retarget-prefix", "retarget-longer"):
+            to = os.readlink(fp)
+            os.unlink(fp)
+            os.symlink(to[:-1] if how == "retarget-prefix" else to + b"x", fp)
+        elif how == "delete":
             os.unlink(fp)
         elif how == "rmdir":
             try:
